@@ -1,12 +1,15 @@
 # C16 - grammar-pool serialisation: the engine's block-buffered stream
-CLAIMS = {'engine': 'XSerializeEngine operator<< / operator>> for XMLByte, XMLCh, int, unsigned int, unsigned long, bool + alignment + block flush/fill: load(store(script)) == script for every script of K items over a 16-byte block'}
+CLAIMS = {'engine_raw': 'XSerializeEngine::write(bytes,len)/read(bytes,len) for every run position/length relative to the 16-byte block (PRE < 16 leading bytes, LEN <= RAWMAX): run and the following items read back', 'engine': 'XSerializeEngine operator<< / operator>> for XMLByte, XMLCh, int, unsigned int, unsigned long, bool + alignment + block flush/fill: load(store(script)) == script for every script of K items over a 16-byte block'}
 ASSUMPTIONS = ['engine objects built field by field (object pools not used by primitive items)', 'streams: collector / replayer of whole blocks', 'float/double items excluded (bit copies; floating point declined)']
 HARNESSES = [
  dict(name='engine', entry='harness_engine', srcs=['C16/engine.cpp'], tus=['internal/XSerializeEngine.cpp', 'util/XMLString.cpp', 'framework/BinOutputStream.cpp', 'util/BinInputStream.cpp'],
       cuts=['_ZN11xercesc_4_09XMLString9binToTextE*', '_ZN11xercesc_4_09XMLString10sizeToTextE*'],
-      defs={'quick': {'K': 3}, 'thorough': {'K': 6}}, unwind=20, timeout={'quick': 600, 'thorough': 1700}),
+      defs={'quick': {'K': 2}, 'thorough': {'K': 3}}, unwind=20, timeout={'quick': 900, 'thorough': 2400}),
+ dict(name='engine_raw', entry='harness_engine_raw', srcs=['C16/engine.cpp'], tus=['internal/XSerializeEngine.cpp', 'util/XMLString.cpp', 'framework/BinOutputStream.cpp', 'util/BinInputStream.cpp'],
+      cuts=['_ZN11xercesc_4_09XMLString9binToTextE*', '_ZN11xercesc_4_09XMLString10sizeToTextE*'],
+      defs={'quick': {'RAWMAX': 20}, 'thorough': {'RAWMAX': 36}}, unwind=20, unwind_cap=48, timeout={'quick': 900, 'thorough': 3000}, mem_gb=16),
 ]
 LEVEL_TEXT = ('Bounded model checking of the real serialisation engine stream: for ALL scripts of primitive items (types and values symbolic) the load side reads back exactly what the store side wrote, across block '
               'boundaries and alignment padding, with both cursors inside their buffers.')
 LEVEL_NOTE = ('NOT claimed: per-class serialize() symmetry, object-graph identity (pointer pools), XTemplateSerializer containers, behavioural identity of a restored grammar pool, the level stamp check (whole-system / heap graphs). '
-              'Bounds: block 16 bytes, K = 3 items (quick) / 6.')
+              'Bounds: block 16 bytes; PRE < 16 leading bytes (arbitrary start cursor) then K = 2 items (quick) / 3; raw runs of <= 20 bytes (quick) / 36.')
